@@ -92,7 +92,10 @@ Play(x, syms) == IF syms = <<>> THEN x ELSE Play(Settle(Dispatch(x, FrameOf(Head
 GInit == \E b \in Bases : w = Play(Base, Prefix(b)) /\ hist = Prefix(b) /\ plen = Len(Prefix(b))
 
 GNext == \E a \in Alphabet :
-            /\ ~w.gone /\ w.phase = "steady" /\ Len(hist) - plen < K
+            \* (the server may keep talking after a violation that made the client start a close of its own,
+            \* and after its own Close: those frames are ignored resp. unexpected - they must not hide the
+            \* Connection.Close the client owes, nor the reported cause)
+            /\ ~w.gone /\ Len(hist) - plen < K
             /\ w' = Settle(Dispatch(w, FrameOf(a)))
             /\ hist' = Append(hist, a)
             /\ plen' = plen
